@@ -54,7 +54,7 @@ SEED_C = """seed deck c
 1 0 -1 fill=1 (1)
 2 0 #(-1:2)
 3 0 2
-10 1 -2.7 -11 12 -13 14 lat=1 u=1 fill=-1:1 0:1 0:0 2 3 2 3 2 3
+10 1 -2.7 -11 12 -13 14 fill=-1:1 0:1 0:0 2 2 2 3 3 3 lat=1 u=1
 21 2 -1.5 -21 u=2
 22 0 21 u=2
 31 1 -2.7 -5.1 u=3
